@@ -1009,28 +1009,28 @@ type zsC struct{}
 var zsVisits []string
 
 func (*zsA) Prep(ctx context.Context, s *flyt.SharedStore) (any, error) { return nil, nil }
-func (*zsA) Exec(ctx context.Context, p any) (any, error) {
-	zsVisits = append(zsVisits, "A")
-	return nil, nil
-}
+func (*zsA) Exec(ctx context.Context, p any) (any, error)               { return zsVisit("A") }
 func (*zsA) Post(ctx context.Context, s *flyt.SharedStore, p, e any) (flyt.Action, error) {
 	return "", nil
 }
 func (*zsB) Prep(ctx context.Context, s *flyt.SharedStore) (any, error) { return nil, nil }
-func (*zsB) Exec(ctx context.Context, p any) (any, error) {
-	zsVisits = append(zsVisits, "B")
-	return nil, nil
-}
+func (*zsB) Exec(ctx context.Context, p any) (any, error)               { return zsVisit("B") }
 func (*zsB) Post(ctx context.Context, s *flyt.SharedStore, p, e any) (flyt.Action, error) {
 	return "", nil
 }
 func (*zsC) Prep(ctx context.Context, s *flyt.SharedStore) (any, error) { return nil, nil }
-func (*zsC) Exec(ctx context.Context, p any) (any, error) {
-	zsVisits = append(zsVisits, "C")
-	return nil, nil
-}
+func (*zsC) Exec(ctx context.Context, p any) (any, error)               { return zsVisit("C") }
 func (*zsC) Post(ctx context.Context, s *flyt.SharedStore, p, e any) (flyt.Action, error) {
 	return "stop", nil
+}
+
+// zsVisit records a visit; a run that is still going after 60 visits has left the three-node path and is ended by an error.
+func zsVisit(name string) (any, error) {
+	zsVisits = append(zsVisits, name)
+	if len(zsVisits) > 60 {
+		return nil, errors.New("harness: runaway run cut off")
+	}
+	return nil, nil
 }
 
 // zeroSizePointerNodes: A -default-> B -default-> C: each node's own default connection is followed.
